@@ -126,7 +126,8 @@ def evaluate_prepare(ctx, H, prep, selector, lines, line_end=b"\n"):
     facts = {"self.selector": Const(selector)}
     w = Walker(prog, ctx.resolver, call_value=cv, store_hook=sh, expr_value=ev, assumptions=facts, sticky=set(facts), exact_loops=True,
                unroll=len(script) + 3, max_paths=400000,
-               inline=lambda fn, t, d: d < 3 and (t.bound_cls is not None or (fn.cls is None and fn.module is prep.module)) and fn.name not in ("getentry",))
+               inline=lambda fn, t, d: d < 3 and (t.bound_cls is not None or (fn.cls is None and fn.module.name.startswith("pygopherd.")
+                                                                                   and fn.name not in ("getinfoentry", "log"))) and fn.name not in ("getentry",))
     holder["w"] = w
     try:
         paths = w.run(prep, H, facts=dict(facts))
